@@ -15,9 +15,9 @@ git apply $SRC/patch.diff 2>/dev/null || R_APPLY=fail
 if [ $R_APPLY = ok ]; then
   if go build ./... >/dev/null 2>&1 && go test -count=1 ./test/ ./enc/ >/tmp/confirm-$ID.suite 2>&1; then R_SUITE=pass; else R_SUITE=fail; fi
   cp $SRC/demo_test.go $DEMO
-  if go test -count=1 -run 'Mut' ./test/ >/tmp/confirm-$ID.with 2>&1; then R_DEMO_WITH=pass; else R_DEMO_WITH=fail; fi
+  if go test $MUT_TEST_FLAGS -count=1 -run 'Mut' ./test/ >/tmp/confirm-$ID.with 2>&1; then R_DEMO_WITH=pass; else R_DEMO_WITH=fail; fi
   git apply -R $SRC/patch.diff
-  if go test -count=1 -run 'Mut' ./test/ >/tmp/confirm-$ID.without 2>&1; then R_DEMO_WITHOUT=pass; else R_DEMO_WITHOUT=fail; fi
+  if go test $MUT_TEST_FLAGS -count=1 -run 'Mut' ./test/ >/tmp/confirm-$ID.without 2>&1; then R_DEMO_WITHOUT=pass; else R_DEMO_WITHOUT=fail; fi
 fi
 cd /verif
 git -C /repo worktree remove --force $WT >/dev/null 2>&1
